@@ -1213,10 +1213,10 @@ Definition Sim (f : nat) :=
     | O => None
     | S g' =>
         match under t, v with
-        | TIface, GNil | TMap _, GNil => Some []
-        | TPtr _, GNil => if inif then None else Some []
+        | TMap _, GNil => Some []
+        | TIface, GNil | TPtr _, GNil => if inif then None else Some []
         | TPtr u, GPtr x => im g' inif u x
-        | TIface, GIface dt dv => im g' true dt dv
+        | TIface, GIface dt dv => if spec_supported (S f) dt then im g' true dt dv else None
         | (TStruct _ | TMap _), _ =>
             match spec_fold f t v with Some (CObj ms) => Some ms | _ => None end
         | _, _ => None
@@ -1257,7 +1257,7 @@ Lemma spec_fold_S f t v :
   | TNum k, GNum z => Some (spec_num k z)
   | TPtr _, GNil | TIface, GNil => Some CNil
   | TPtr u, GPtr x => spec_fold f u x
-  | TIface, GIface dt dv => spec_fold f dt dv
+  | TIface, GIface dt dv => if spec_supported (S f) dt then spec_fold f dt dv else None
   | TSlice _, GNil => Some (CArr [])
   | (TSlice u | TArray _ u), GList l =>
       match opt_all (map (spec_fold f u) l) with Some vs => Some (CArr vs) | None => None end
@@ -1279,10 +1279,10 @@ Proof. reflexivity. Qed.
 Lemma Sim_S f g inif t v :
   Sim f (S g) inif t v =
   match under t, v with
-  | TIface, GNil | TMap _, GNil => Some []
-  | TPtr _, GNil => if inif then None else Some []
+  | TMap _, GNil => Some []
+  | TIface, GNil | TPtr _, GNil => if inif then None else Some []
   | TPtr u, GPtr x => Sim f g inif u x
-  | TIface, GIface dt dv => Sim f g true dt dv
+  | TIface, GIface dt dv => if spec_supported (S f) dt then Sim f g true dt dv else None
   | (TStruct _ | TMap _), _ =>
       match spec_fold f t v with Some (CObj ms) => Some ms | _ => None end
   | _, _ => None
@@ -1450,10 +1450,16 @@ Proof.
   unfold msz in Hg. rewrite (base_tsize t m b Hb) in Hg. lia.
 Qed.
 
-Lemma sfv_iface dt dv c : sfv dt dv c -> sfv TIface (GIface dt dv) c.
+Lemma supported_of_cc dt F : cc_type dt = None -> (tsize dt < F)%nat -> spec_supported F dt = true.
 Proof.
-  intros H g Hg. unfold msz in Hg. cbn [tsize vsize] in Hg. destruct g as [|g]; [lia|].
-  rewrite spec_fold_S. cbn [under]. apply H. unfold msz. lia.
+  intros Hc HF. apply (supported_mono (S (tsize dt))); [apply supported_compiles; exact Hc|lia].
+Qed.
+
+Lemma sfv_iface dt dv c : cc_type dt = None -> sfv dt dv c -> sfv TIface (GIface dt dv) c.
+Proof.
+  intros Hc H g Hg. unfold msz in Hg. cbn [tsize vsize] in Hg. destruct g as [|g]; [lia|].
+  rewrite spec_fold_S. cbn [under]. rewrite (supported_of_cc dt (S g) Hc) by lia.
+  apply H. unfold msz. lia.
 Qed.
 
 Lemma spec_fold_under g t t' v : under t = under t' -> spec_fold g t v = spec_fold g t' v.
@@ -1663,12 +1669,20 @@ Proof. destruct t; try discriminate; [intros _ E; exact E|]. cbn [under type_ok]
 Lemma under_not_named t u : type_ok t = true -> under t = TNamed u -> False.
 Proof. destruct t; try discriminate. cbn [under type_ok]. intros H E. subst. discriminate H. Qed.
 
+Lemma cc_type_base t : forall m b, base_type t = (m, b) -> cc_type t = cc_type b.
+Proof.
+  induction t; intros m b H; try (inversion H; subst; reflexivity).
+  cbn [base_type] in H. destruct (base_type t) as [n' b'] eqn:E. inversion H; subst.
+  change (cc_type (TPtr t)) with (cc_type t). eapply IHt. reflexivity.
+Qed.
+
 Lemma resolve_spec : forall f t v, type_ok t = true -> hty t v = true ->
   match resolve f t v with
   | None => (vsize v <= f)%nat -> forall g, (msz t v <= g)%nat -> spec_empty g t v = true
   | Some (t', v') =>
       (forall g, spec_empty g t v = false) /\ (vsize v' <= vsize v)%nat /\
-      (forall c, sfv t' v' c -> sfv t v c)
+      (cc_type t' = None -> cc_type t = None) /\
+      (forall c, cc_type t' = None -> sfv t' v' c -> sfv t v c)
   end.
 Proof.
   induction f as [|f IH]; intros t v Ht Hv.
@@ -1682,9 +1696,11 @@ Proof.
   (* what is needed at the base type, transported along the pointers *)
   assert (KS : (forall g, spec_empty g bt bv = false) ->
                (forall g, spec_empty g t v = false) /\ (vsize bv <= vsize v)%nat /\
-               (forall c, sfv bt bv c -> sfv t v c)).
+               (cc_type bt = None -> cc_type t = None) /\
+               (forall c, cc_type bt = None -> sfv bt bv c -> sfv t v c)).
   { intro H. split; [eapply spec_empty_ptr_false; eauto|]. split; [lia|].
-    intros c Hc. eapply sfv_ptr; eauto. }
+    split; [rewrite (cc_type_base t n bt Eb); auto|].
+    intros c _ Hc. eapply sfv_ptr; eauto. }
   assert (KN : (forall g, (msz bt bv <= S g)%nat -> spec_empty (S g) bt bv = true) ->
                forall g, (msz t v <= g)%nat -> spec_empty g t v = true).
   { intros H g Hg. replace g with (n + S (g - n - 1))%nat
@@ -1705,11 +1721,13 @@ Proof.
     + apply hty_iface_inv in Hbv. destruct Hbv as (H1 & _ & H3).
       destruct (has_resolver t0) eqn:Eh.
       * specialize (IH t0 bv H1 H3). destruct (resolve f t0 bv) as [[t' v']|].
-        -- destruct IH as (A & B & C).
-           destruct KS as (K1 & K2 & K3).
+        -- destruct IH as (A & B & D & C).
+           destruct KS as (K1 & K2 & K3 & K4).
            { intros [|g]; [apply spec_empty_O|]. rewrite spec_empty_S. cbn [under]. apply A. }
            split; [exact K1|]. split; [cbn [vsize] in K2; lia|].
-           intros c Hc. apply K3. apply sfv_iface. apply C. exact Hc.
+           split; [intros _; apply K3; reflexivity|].
+           intros c Hcc Hc. apply K4; [reflexivity|]. apply sfv_iface; [apply D; exact Hcc|].
+           apply C; assumption.
         -- intros Hf. apply KN. intros g Hg. rewrite spec_empty_S. cbn [under].
            unfold msz in Hg. cbn [tsize vsize] in Hg, Hvs. apply IH; [lia|unfold msz; lia].
       * apply KS. intros [|g]; [apply spec_empty_O|]. rewrite spec_empty_S. cbn [under].
@@ -1760,9 +1778,14 @@ Proof.
   - (* interface *)
     apply under_iface in Eu; [|exact Ht]. subst t.
     apply hty_iface_inv in Hv. destruct Hv as (Hv1 & _ & Hv3).
+    assert (Hsup : spec_supported (S g) t0 = true).
+    { pose proof (H (S g) ltac:(lia)) as Hx. rewrite spec_fold_S in Hx. cbn [under] in Hx.
+      destruct (spec_supported (S g) t0); [reflexivity|discriminate Hx]. }
+    rewrite Hsup.
     apply (IH t0 v cms true g0 Hv1 Hv3); [|exact Hg|unfold msz in *; cbn [tsize vsize] in HG; lia].
     intros g' Hg'. specialize (H (S g') (Nat.le_trans _ _ _ Hg' (Nat.le_succ_diag_r g'))).
-    rewrite spec_fold_S in H. exact H.
+    rewrite spec_fold_S in H. cbn [under] in H.
+    destruct (spec_supported (S g') t0); [exact H|discriminate H].
   - (* pointer *)
     apply under_not_ptr in Eu; [|exact Ht]. subst t. cbn [type_ok] in Ht.
     apply (IH u v cms inif g0 Ht Hv); [|exact Hg|unfold msz in *; cbn [tsize vsize] in HG; lia].
@@ -1858,8 +1881,20 @@ Proof. intros g Hg. destruct g; [lia|]. rewrite spec_fold_S. reflexivity. Qed.
 Lemma okc_nil_iface : okc TIface GNil [EVal SNil].
 Proof. apply okc_val. exact sfv_nil_iface. Qed.
 
-Lemma okc_iface dt dv evs : okc dt dv evs -> okc TIface (GIface dt dv) evs.
-Proof. intros (tr & E & H). exists tr. split; [exact E|apply sfv_iface; exact H]. Qed.
+Lemma okc_iface dt dv evs : cc_type dt = None -> okc dt dv evs -> okc TIface (GIface dt dv) evs.
+Proof. intros Hc (tr & E & H). exists tr. split; [exact E|apply sfv_iface; assumption]. Qed.
+
+Lemma Anyr_ok_cc f dt dv evs : Anyr f dt dv = (evs, None) -> cc_type dt = None.
+Proof.
+  unfold Anyr. destruct (cc_type dt); [intro H; apply ferr_ok in H; contradiction|reflexivity].
+Qed.
+
+Lemma ftop_ok_cc f t v evs : ftop f t v = (evs, None) -> cc_type t = None.
+Proof.
+  intro H. destruct f as [|f]; [rewrite ftop_O in H; discriminate H|].
+  destruct (cc_type t) as [e|] eqn:Ec; [|reflexivity].
+  rewrite (ftop_cc f t v e Ec) in H. discriminate H.
+Qed.
 
 Lemma Anyr_okc f dt dv evs : P12 f ->
   type_ok dt = true -> hty dt dv = true -> (vsize dv <= f)%nat ->
@@ -1884,7 +1919,7 @@ Proof.
   intros [_ Hft] Hv Hf H. unfold Ielem in H.
   destruct (hty_iface_nil x Hv) as [->|(dt & dv & -> & H1 & H3)].
   - apply fok_inv in H. subst. apply okc_nil_iface.
-  - apply okc_iface. apply (Hft dt dv evs H1 H3); [|exact H]. cbn [vsize] in Hf. lia.
+  - apply okc_iface; [exact (ftop_ok_cc _ _ _ _ H)|]. apply (Hft dt dv evs H1 H3); [|exact H]. cbn [vsize] in Hf. lia.
 Qed.
 
 Lemma Mapval_okc f et x evs : P12 f ->
@@ -2007,7 +2042,7 @@ Proof.
       assert (Hdv : (vsize dv <= f)%nat) by (cbn [vsize] in Hvs; lia).
       destruct (Anyr_okc f dt dv e0 HP H1 H3 Hdv He0) as (tr & -> & Hs).
       apply embed_flatten in H. destruct H as (len & b & ms & Ex & ->).
-      exists ms. split; [reflexivity|]. apply K. apply sfv_iface.
+      exists ms. split; [reflexivity|]. apply K. apply sfv_iface; [exact (Anyr_ok_cc _ _ _ _ He0)|].
       rewrite <- cvt_obj with (len := len) (bt := b). rewrite <- Ex, cvt_expand. exact Hs.
   - (* map *)
     assert (Hcu : ccok u) by (eapply ccok_under_map; eauto).
@@ -2040,7 +2075,12 @@ Proof.
   destruct t'; try (eapply Anyr_okc; eauto; fail).
   destruct (hty_iface_nil v' Hv) as [->|(dt & dv & -> & H1 & H3)].
   - apply fok_inv in H. subst. apply okc_nil_iface.
-  - apply okc_iface. apply (Anyr_okc f dt dv evs HP H1 H3); [cbn [vsize] in Hf; lia|exact H].
+  - apply okc_iface; [exact (Anyr_ok_cc _ _ _ _ H)|]. apply (Anyr_okc f dt dv evs HP H1 H3); [cbn [vsize] in Hf; lia|exact H].
+Qed.
+
+Lemma Resolved_ok_cc f t' v' e : Resolved f t' v' = (e, None) -> cc_type t' = None.
+Proof.
+  unfold Resolved. destruct t'; try (apply Anyr_ok_cc); intros _; reflexivity.
 Qed.
 
 Lemma flatten_members_one k tr : flatten_members [(k, false, tr)] = EKey k :: flatten tr.
@@ -2059,12 +2099,13 @@ Proof.
   - pose proof (resolve_spec f ft fv Ht Hv) as HR.
     destruct (resolve f ft fv) as [[t' v']|] eqn:Er.
     + apply fseq_fok_l in H. destruct H as (e2 & H & ->). cbn [app].
-      destruct HR as (A & B & C).
+      destruct HR as (A & B & _ & C).
       destruct (resolve_hty f ft fv t' v' Ht Hv Er) as [Ht' Hv'].
+      pose proof (Resolved_ok_cc f t' v' e2 H) as Hcc'.
       destruct (Resolved_okc f t' v' e2 HP Ht' Hv' ltac:(lia) H) as (tr & -> & Hs).
       exists [(name', false, tr)]. split; [symmetry; apply flatten_members_one|].
       intros g Hg. right. rewrite A. split; [reflexivity|]. exists tr. split; [reflexivity|].
-      apply (C _ Hs). exact Hg.
+      apply (C _ Hcc' Hs). exact Hg.
     + apply fok_inv in H. subst. exists []. split; [reflexivity|]. intros g Hg. left.
       rewrite (HR Hf (S g)) by lia. split; reflexivity.
   - apply fseq_fok_l in H. destruct H as (e2 & H & ->). cbn [app].
@@ -2221,7 +2262,7 @@ Proof.
         split; [intros _|intros _ fs E; discriminate E].
         destruct (hty_iface_nil v Hv) as [->|(dt & dv & -> & H1 & H3)].
         -- apply fok_inv in H. subst. apply okc_nil_iface.
-        -- apply okc_iface. apply (Anyr_okc f dt dv evs IH H1 H3); [cbn [vsize] in Hf; lia|exact H].
+        -- apply okc_iface; [exact (Anyr_ok_cc _ _ _ _ H)|]. apply (Anyr_okc f dt dv evs IH H1 H3); [cbn [vsize] in Hf; lia|exact H].
       * (* pointer *)
         split; [intros _|intros _ fs E; discriminate E].
         destruct (base_type (TPtr u)) as [n bt] eqn:Eb.
@@ -2330,48 +2371,32 @@ Proof.
 Qed.
 Print Assumptions C12_fold_refuses.
 
-(* C12_fold_accepts is false as stated: the documented mapping skips an empty omitempty
-   field without looking at its type, the compile step of the dynamic type does not *)
+(* The two values that refuted the converse under the first version of the specification
+   (an interface holding a struct with an empty omitempty field of an unsupported type;
+   an inlined interface holding a *interface{} that points to a nil interface) are now
+   refused by the specification as well as by Fold. *)
 Definition acc_cex_t := TSlice TIface.
 Definition acc_cex_v :=
   GList [GIface (TStruct [(s_A, tg [s_omitempty], TPtr TUnsup)]) (GStruct [GNil])].
-Example C12_fold_accepts_counterexample :
+Example C12_former_counterexample1 :
   has_type acc_cex_t acc_cex_v = true /\
-  spec_supported 100 acc_cex_t = true /\
-  spec_fold 100 acc_cex_t acc_cex_v = Some (CArr [CObj []]) /\
+  spec_fold 100 acc_cex_t acc_cex_v = None /\
   fold_value acc_cex_t acc_cex_v = ([EArrStart 1 BAny], Some feUnsupported).
 Proof. vm_compute. repeat split. Qed.
-Print Assumptions C12_fold_accepts_counterexample.
+Print Assumptions C12_former_counterexample1.
 
-(* second counterexample: an inlined interface holding a *interface{} that points to a
-   nil interface: no members according to the documented mapping, "no object" for Fold *)
 Definition acc_cex2_t := TStruct [(s_A, tg [s_inline], TIface)].
 Definition acc_cex2_v := GStruct [GIface (TPtr TIface) (GPtr GNil)].
-Example C12_fold_accepts_counterexample2 :
+Example C12_former_counterexample2 :
   has_type acc_cex2_t acc_cex2_v = true /\
-  spec_supported 100 acc_cex2_t = true /\
-  spec_fold 100 acc_cex2_t acc_cex2_v = Some (CObj []) /\
+  spec_fold 100 acc_cex2_t acc_cex2_v = None /\
   fold_value acc_cex2_t acc_cex2_v = ([EObjStart (-1) BAny], Some feInlineNoObject).
 Proof. vm_compute. repeat split. Qed.
-Print Assumptions C12_fold_accepts_counterexample2.
+Print Assumptions C12_former_counterexample2.
 
 (* ====================================================================== *)
-(* Part 6: the converse - what the documentation accepts, Fold accepts,     *)
-(* provided the dynamic types compile and no interface holds a pointer to   *)
-(* an interface                                                            *)
+(* Part 6: the converse - what the documentation accepts, Fold accepts      *)
 (* ====================================================================== *)
-
-Definition is_none {A} (o : option A) : bool := match o with None => true | Some _ => false end.
-
-Fixpoint dyn_ok (v : gvalue) : bool :=
-  match v with
-  | GPtr x => dyn_ok x
-  | GList l => forallb dyn_ok l
-  | GMap kvs => forallb (fun kv => dyn_ok (snd kv)) kvs
-  | GStruct l => forallb dyn_ok l
-  | GIface dt dv => is_none (cc_type dt) && negb (is_iface (snd (base_type dt))) && dyn_ok dv
-  | _ => true
-  end.
 
 (* ---------- the compile check with enough fuel ---------- *)
 Lemma base_tsize_le t : (tsize (snd (base_type t)) <= tsize t)%nat.
@@ -2446,32 +2471,24 @@ Proof.
   rewrite spec_fold_S in H. cbn [under] in H. eapply IHt; eauto. exists g, c. exact H.
 Qed.
 
-Lemma sp_iface dt dv : sp TIface (GIface dt dv) -> sp dt dv.
+Lemma cc_of_supported F dt : spec_supported F dt = true -> cc_type dt = None.
+Proof.
+  intro H. rewrite supported_cc in H. destruct (cc F dt) eqn:Ec; [discriminate H|].
+  unfold cc_type. apply (cc_enough F dt Ec). lia.
+Qed.
+
+Lemma sp_iface dt dv : sp TIface (GIface dt dv) -> sp dt dv /\ cc_type dt = None.
 Proof.
   intros (g & c & H). destruct g as [|g]; [rewrite spec_fold_O in H; discriminate H|].
-  rewrite spec_fold_S in H. exists g, c. exact H.
+  rewrite spec_fold_S in H. cbn [under] in H.
+  destruct (spec_supported (S g) dt) eqn:Es; [|discriminate H].
+  split; [exists g, c; exact H|eapply cc_of_supported; eauto].
 Qed.
 
 Lemma sp_named u v : named_ok u = true -> sp (TNamed u) v -> sp u v.
 Proof.
   intros Hn (g & c & H). exists g, c. rewrite <- H. apply spec_fold_under.
   destruct u; try discriminate Hn; reflexivity.
-Qed.
-
-Lemma dyn_ok_deref m : forall v bv, dyn_ok v = true -> deref m v = Some bv -> dyn_ok bv = true.
-Proof.
-  induction m as [|m IH]; intros v bv Hv Hd; cbn [deref] in Hd; [inversion Hd; subst; exact Hv|].
-  destruct v; try discriminate Hd. exact (IH v bv Hv Hd).
-Qed.
-
-Lemma dyn_ok_glist v x : dyn_ok v = true -> In x (glist v) -> dyn_ok x = true.
-Proof.
-  destruct v; try contradiction. cbn [dyn_ok glist]. intros H Hx. rewrite forallb_forall in H. apply H, Hx.
-Qed.
-
-Lemma dyn_ok_gmap v kv : dyn_ok v = true -> In kv (gmap v) -> dyn_ok (snd kv) = true.
-Proof.
-  destruct v; try contradiction. cbn [dyn_ok gmap]. intros H Hx. rewrite forallb_forall in H. apply (H kv), Hx.
 Qed.
 
 Lemma Sfields_shape g : forall fs vs acc c, Sfields g fs vs acc = Some c -> exists cms, c = CObj cms.
@@ -2500,6 +2517,99 @@ Proof.
     inversion H; eauto.
   - destruct bv; try discriminate H. eapply Sfields_shape; eauto.
 Qed.
+
+(* ---------- fuel monotonicity of the specification ---------- *)
+Lemma spec_empty_mono_true : forall g g' t v,
+  spec_empty g t v = true -> (g <= g')%nat -> spec_empty g' t v = true.
+Proof.
+  induction g as [|g IH]; intros g' t v H Hle; [rewrite spec_empty_O in H; discriminate H|].
+  destruct g' as [|g']; [lia|]. rewrite spec_empty_S in *.
+  destruct (under t); destruct v; try discriminate H; try exact H; (eapply IH; [exact H|lia]).
+Qed.
+
+Lemma spec_empty_stable : forall g t v c, spec_fold g t v = Some c ->
+  forall g', (S g <= g')%nat -> spec_empty g' t v = spec_empty (S g) t v.
+Proof.
+  induction g as [|g IH]; intros t v c H g' Hle; [rewrite spec_fold_O in H; discriminate H|].
+  destruct g' as [|g']; [lia|]. rewrite spec_fold_S in H. rewrite (spec_empty_S g'), (spec_empty_S (S g)).
+  destruct (under t); destruct v; try reflexivity; try discriminate H.
+  - destruct (spec_supported (S g) t0); [|discriminate H]. eapply IH; [exact H|lia].
+  - eapply IH; [exact H|lia].
+Qed.
+
+Lemma opt_all_mono {A B} (f f' : A -> option B) l : forall ys,
+  (forall x y, f x = Some y -> f' x = Some y) ->
+  opt_all (map f l) = Some ys -> opt_all (map f' l) = Some ys.
+Proof.
+  induction l as [|a l IH]; intros ys Hf H; [exact H|]. cbn [map opt_all] in *.
+  destruct (f a) as [y|] eqn:Ea; [|discriminate H]. rewrite (Hf a y Ea).
+  destruct (opt_all (map f l)) as [ys'|] eqn:El; [|discriminate H].
+  rewrite (IH ys' Hf eq_refl). exact H.
+Qed.
+
+Lemma Sim_mono g g' :
+  (forall t v c, spec_fold g t v = Some c -> spec_fold g' t v = Some c) -> (g <= g')%nat ->
+  forall G G' inif t v ms, Sim g G inif t v = Some ms -> (G <= G')%nat -> Sim g' G' inif t v = Some ms.
+Proof.
+  intros Hsf Hgg. induction G as [|G IH]; intros G' inif t v ms H Hle; [rewrite Sim_O in H; discriminate H|].
+  destruct G' as [|G']; [lia|]. rewrite Sim_S in *.
+  assert (K : match spec_fold g t v with Some (CObj ms0) => Some ms0 | _ => None end = Some ms ->
+              match spec_fold g' t v with Some (CObj ms0) => Some ms0 | _ => None end = Some ms).
+  { intro HK. destruct (spec_fold g t v) as [[]|] eqn:E; try discriminate HK.
+    rewrite (Hsf _ _ _ E). exact HK. }
+  destruct (under t); destruct v; try discriminate H; try exact H; try (apply K; exact H).
+  - destruct (spec_supported (S g) t0) eqn:Es; [|discriminate H].
+    rewrite (supported_mono (S g) (S g') t0 Es) by lia. eapply IH; [exact H|lia].
+  - eapply IH; [exact H|lia].
+Qed.
+
+Lemma Sfields_mono g g' :
+  (forall t v c, spec_fold g t v = Some c -> spec_fold g' t v = Some c) -> (g <= g')%nat ->
+  forall fs vs acc c, Sfields g fs vs acc = Some c -> Sfields g' fs vs acc = Some c.
+Proof.
+  intros Hsf Hgg. induction fs as [|[[name tag] ft] fs IH]; intros vs acc c H; [exact H|].
+  destruct vs as [|fv vs]; [exact H|]. rewrite Sfields_cons in *.
+  destruct (negb (exported name)); [apply IH; exact H|].
+  destruct (parse_tags tag) as [tn o].
+  destruct (t_squash o && t_omitempty o); [discriminate H|].
+  destruct (t_omit o); [apply IH; exact H|].
+  destruct (t_squash o).
+  - destruct (Sim g (S g) false ft fv) as [ms|] eqn:ES; [|discriminate H].
+    rewrite (Sim_mono g g' Hsf Hgg (S g) (S g') false ft fv ms ES) by lia. apply IH. exact H.
+  - destruct (t_omitempty o); cbn [andb] in *.
+    + destruct (spec_empty (S g) ft fv) eqn:Ee.
+      * rewrite (spec_empty_mono_true (S g) (S g') ft fv Ee) by lia. apply IH. exact H.
+      * destruct (spec_fold g ft fv) as [x|] eqn:Es; [|discriminate H].
+        rewrite (spec_empty_stable g ft fv x Es (S g')) by lia. rewrite Ee, (Hsf _ _ _ Es). apply IH. exact H.
+    + destruct (spec_fold g ft fv) as [x|] eqn:Es; [|discriminate H].
+      rewrite (Hsf _ _ _ Es). apply IH. exact H.
+Qed.
+
+Theorem spec_fold_mono : forall g g' t v c,
+  spec_fold g t v = Some c -> (g <= g')%nat -> spec_fold g' t v = Some c.
+Proof.
+  induction g as [|g IH]; intros g' t v c H Hle; [rewrite spec_fold_O in H; discriminate H|].
+  destruct g' as [|g']; [lia|]. rewrite spec_fold_S in *.
+  assert (Hsf : forall t v c, spec_fold g t v = Some c -> spec_fold g' t v = Some c).
+  { intros t1 v1 c1 H1. apply (IH g' t1 v1 c1 H1). lia. }
+  destruct (under t) as [ | |k| |u|u|n0 u|u|u|l|u| ]; destruct v; try discriminate H; try exact H.
+  - destruct (spec_supported (S g) t0) eqn:Es; [|discriminate H].
+    rewrite (supported_mono (S g) (S g') t0 Es) by lia. apply Hsf. exact H.
+  - apply Hsf. exact H.
+  - destruct (opt_all (map (spec_fold g u) vs)) as [ys|] eqn:Eo; [|discriminate H].
+    rewrite (opt_all_mono _ (spec_fold g' u) vs ys (Hsf u) Eo). exact H.
+  - destruct (opt_all (map (spec_fold g u) vs)) as [ys|] eqn:Eo; [|discriminate H].
+    rewrite (opt_all_mono _ (spec_fold g' u) vs ys (Hsf u) Eo). exact H.
+  - match type of H with match opt_all (map ?F kvs) with _ => _ end = _ =>
+      destruct (opt_all (map F kvs)) as [ys|] eqn:Eo; [|discriminate H];
+      rewrite (opt_all_mono F (fun kv => match spec_fold g' u (snd kv) with
+                                          | Some x => Some (fst kv, x) | None => None end) kvs ys) end;
+      [exact H| |exact Eo].
+    intros kv y Hy. cbv beta in *. destruct (spec_fold g u (snd kv)) as [x|] eqn:Ex; [|discriminate Hy].
+    rewrite (Hsf _ _ _ Ex). exact Hy.
+  - apply (Sfields_mono g g' Hsf ltac:(lia)). exact H.
+Qed.
+Print Assumptions spec_fold_mono.
 
 (* ---------- success of the loops ---------- *)
 Lemma fseq_intro (a k : fr) e1 e2 : a = (e1, None) -> k = (e2, None) -> (a ;; k) = (e1 ++ e2, None).
@@ -2552,56 +2662,48 @@ Qed.
 
 (* ---------- "good": everything the run needs to know about a typed value ---------- *)
 Definition good (t : gtype) (v : gvalue) : Prop :=
-  type_ok t = true /\ hty t v = true /\ ccok t /\ dyn_ok v = true /\ sp t v.
+  type_ok t = true /\ hty t v = true /\ ccok t /\ sp t v.
 
-Lemma good_iface dt dv : good TIface (GIface dt dv) ->
-  good dt dv /\ is_iface (snd (base_type dt)) = false.
+Lemma good_iface dt dv : good TIface (GIface dt dv) -> good dt dv.
 Proof.
-  intros (Ht & Hv & Hc & Hd & Hs). apply hty_iface_inv in Hv. destruct Hv as (H1 & _ & H3).
-  cbn [dyn_ok] in Hd. apply andb_true_iff in Hd. destruct Hd as [Hd Hd3].
-  apply andb_true_iff in Hd. destruct Hd as [Hd1 Hd2]. apply negb_true_iff in Hd2.
-  split; [|exact Hd2]. split; [exact H1|]. split; [exact H3|]. split.
-  - exists (S (tsize dt)). unfold cc_type in Hd1. destruct (cc (S (tsize dt)) dt); [discriminate Hd1|reflexivity].
-  - split; [exact Hd3|apply sp_iface; exact Hs].
+  intros (Ht & Hv & Hc & Hs). apply hty_iface_inv in Hv. destruct Hv as (H1 & _ & H3).
+  destruct (sp_iface dt dv Hs) as [Hs' Hcc].
+  split; [exact H1|]. split; [exact H3|]. split; [eexists; exact Hcc|exact Hs'].
 Qed.
 
 Lemma good_base t m b v bv : good t v -> base_type t = (m, b) -> deref m v = Some bv -> good b bv.
 Proof.
-  intros (Ht & Hv & Hc & Hd & Hs) Eb Ed. destruct (hty_base t m b v bv Ht Hv Eb Ed) as [Hbt Hbv].
-  split; [exact Hbt|]. split; [exact Hbv|]. split; [eapply ccok_base; eauto|].
-  split; [eapply dyn_ok_deref; eauto|eapply sp_base; eauto].
+  intros (Ht & Hv & Hc & Hs) Eb Ed. destruct (hty_base t m b v bv Ht Hv Eb Ed) as [Hbt Hbv].
+  split; [exact Hbt|]. split; [exact Hbv|]. split; [eapply ccok_base; eauto|eapply sp_base; eauto].
 Qed.
 
 Lemma good_named u v : named_ok u = true -> good (TNamed u) v -> good u v.
 Proof.
-  intros Hn (Ht & Hv & Hc & Hd & Hs). cbn [type_ok] in Ht. apply andb_true_iff in Ht.
+  intros Hn (Ht & Hv & Hc & Hs). cbn [type_ok] in Ht. apply andb_true_iff in Ht.
   split; [apply Ht|]. split; [rewrite <- (hty_named_ok u v Hn); exact Hv|].
-  split; [apply ccok_named; exact Hc|]. split; [exact Hd|apply sp_named; assumption].
+  split; [apply ccok_named; exact Hc|apply sp_named; assumption].
 Qed.
 
 Lemma good_slice_elem et v x : good (TSlice et) v -> In x (glist v) -> good et x.
 Proof.
-  intros (Ht & Hv & Hc & Hd & Hs) Hx. split; [exact Ht|]. split.
+  intros (Ht & Hv & Hc & Hs) Hx. split; [exact Ht|]. split.
   - pose proof (hty_slice_list et v Hv) as Hl. rewrite forallb_forall in Hl. apply Hl, Hx.
-  - split; [apply ccok_slice; exact Hc|]. split; [eapply dyn_ok_glist; eauto|].
-    eapply sp_elems; eauto.
+  - split; [apply ccok_slice; exact Hc|]. eapply sp_elems; eauto.
 Qed.
 
 Lemma good_array_elem n et v x : good (TArray n et) v -> In x (glist v) -> good et x.
 Proof.
-  intros (Ht & Hv & Hc & Hd & Hs) Hx. cbn [type_ok] in Ht. apply andb_true_iff in Ht. split; [apply Ht|]. split.
+  intros (Ht & Hv & Hc & Hs) Hx. cbn [type_ok] in Ht. apply andb_true_iff in Ht. split; [apply Ht|]. split.
   - pose proof (hty_array_list n et v Hv) as Hl. rewrite forallb_forall in Hl. apply Hl, Hx.
-  - split; [eapply ccok_array; exact Hc|]. split; [eapply dyn_ok_glist; eauto|].
-    eapply sp_elems; eauto. right. exists n. reflexivity.
+  - split; [eapply ccok_array; exact Hc|]. eapply sp_elems; eauto. right. exists n. reflexivity.
 Qed.
 
 Lemma good_map_elem et v kv : good (TMap et) v -> In kv (gmap v) -> good et (snd kv).
 Proof.
-  intros (Ht & Hv & Hc & Hd & Hs) Hx. split; [exact Ht|]. split.
+  intros (Ht & Hv & Hc & Hs) Hx. split; [exact Ht|]. split.
   - pose proof (hty_map_list et v Hv) as Hl. rewrite forallb_forall in Hl. specialize (Hl kv Hx).
     apply andb_true_iff in Hl. apply Hl.
-  - split; [apply ccok_map; exact Hc|]. split; [eapply dyn_ok_gmap; eauto|].
-    eapply sp_mapvals; eauto.
+  - split; [apply ccok_map; exact Hc|]. eapply sp_mapvals; eauto.
 Qed.
 
 Lemma vsize_glist_in v x : In x (glist v) -> (vsize x < vsize v)%nat.
@@ -2656,19 +2758,29 @@ Proof.
     exists g. destruct (spec_fold g b (GStruct vs)) as [[]|]; try discriminate H. inversion H; reflexivity.
 Qed.
 
-Lemma Sim_true_inv g G dt dv ms :
-  type_ok dt = true -> hty dt dv = true -> is_iface (snd (base_type dt)) = false ->
-  Sim g G true dt dv = Some ms ->
-  exists m b bv, base_type dt = (m, b) /\ deref m dv = Some bv /\ objty b /\
-                 exists g', spec_fold g' b bv = Some (CObj ms).
+(* an inlined interface value that contributes members is an object value *)
+Lemma Sim_true_sp g : forall G t v ms,
+  type_ok t = true -> hty t v = true -> Sim g G true t v = Some ms ->
+  exists g', spec_fold g' t v = Some (CObj ms).
 Proof.
-  intros Ht Hv Hni H. destruct (base_type dt) as [m b] eqn:Eb. cbn [snd] in Hni.
-  destruct (deref m dv) as [bv|] eqn:Ed.
-  - destruct (Sim_base_inv g dt G true m b dv bv ms H Eb Ed) as [G' H'].
-    destruct (hty_base dt m b dv bv Ht Hv Eb Ed) as [Hbt Hbv].
-    destruct (Sim_at_base g G' true b bv ms Hbt Hbv (base_type_not_ptr dt m b Eb) Hni H') as [Ho Hs].
-    exists m, b, bv. auto.
-  - rewrite (Sim_nilptr_true g dt G m b dv Eb Ed Hv) in H. discriminate H.
+  induction G as [|G IH]; intros t v ms Ht Hv H; [rewrite Sim_O in H; discriminate H|].
+  rewrite Sim_S in H.
+  destruct (under t) as [ | |k| |u|u|n0 u|u|u|l|u| ] eqn:Eu;
+    destruct v; cbn [hty] in Hv; rewrite Eu in Hv; try discriminate Hv; try discriminate H.
+  - (* interface *)
+    apply under_iface in Eu; [|exact Ht]. subst t.
+    apply hty_iface_inv in Hv. destruct Hv as (H1 & _ & H3).
+    destruct (spec_supported (S g) t0) eqn:Es; [|discriminate H].
+    destruct (IH t0 v ms H1 H3 H) as [g' Hg'].
+    exists (S (Nat.max g g')). rewrite spec_fold_S. cbn [under].
+    rewrite (supported_mono (S g) _ t0 Es) by lia.
+    apply (spec_fold_mono g' _ t0 v _ Hg'). lia.
+  - (* pointer *)
+    apply under_not_ptr in Eu; [|exact Ht]. subst t. cbn [type_ok] in Ht.
+    destruct (IH u v ms Ht Hv H) as [g' Hg']. exists (S g'). rewrite spec_fold_S. exact Hg'.
+  - (* nil map *) inversion H; subst. exists 1%nat. rewrite spec_fold_S, Eu. reflexivity.
+  - exists g. destruct (spec_fold g t (GMap kvs)) as [[]|]; try discriminate H. inversion H; reflexivity.
+  - exists g. destruct (spec_fold g t (GStruct vs)) as [[]|]; try discriminate H. inversion H; reflexivity.
 Qed.
 
 Lemma ccok_not_mapk bt u : ccok bt -> under bt = TMapK u -> False.
@@ -2700,11 +2812,11 @@ Proof.
   destruct (under bt) eqn:Eu;
     try (inversion H; subst; split; assumption);
     try (destruct (glen bv >? 0); [inversion H; subst; split; assumption|discriminate H]).
-  destruct Hgb as (Hbt & Hbv & Hbc & Hbd & Hbs).
+  destruct Hgb as (Hbt & Hbv & Hbc & Hbs).
   apply under_iface in Eu; [|exact Hbt]. subst bt.
   destruct bv; try discriminate H.
   destruct (has_resolver t0).
-  - destruct (good_iface t0 bv (conj Hbt (conj Hbv (conj Hbc (conj Hbd Hbs))))) as [Hgd _].
+  - pose proof (good_iface t0 bv (conj Hbt (conj Hbv (conj Hbc Hbs)))) as Hgd.
     destruct (IH t0 bv t' v' Hgd H) as [Hg' Hm']. split; [exact Hg'|].
     unfold msz in *. cbn [tsize vsize] in Hm. lia.
   - inversion H; subst. split; [|exact Hm]. repeat split; assumption.
@@ -2718,18 +2830,16 @@ Definition P13 (f : nat) : Prop :=
 Lemma Anyr_ok f dt dv : P13 f -> good dt dv -> (2 * msz dt dv <= f)%nat ->
   exists evs, Anyr f dt dv = (evs, None).
 Proof.
-  intros [Hrf _] Hg Hf. unfold Anyr. destruct Hg as (Ht & Hv & Hc & Hd & Hs).
+  intros [Hrf _] Hg Hf. unfold Anyr. destruct Hg as (Ht & Hv & Hc & Hs).
   rewrite (ccok_cc_type dt Hc). apply Hrf; [repeat split; assumption|exact Hf].
 Qed.
 
-Lemma Ielem_ok f x : P13 f -> type_ok TIface = true -> hty TIface x = true -> dyn_ok x = true ->
-  sp TIface x -> (2 * msz TIface x <= f)%nat -> exists evs, Ielem f x = (evs, None).
+Lemma Ielem_ok f x : P13 f -> good TIface x -> (2 * msz TIface x <= f)%nat ->
+  exists evs, Ielem f x = (evs, None).
 Proof.
-  intros [_ Hft] Ht Hv Hd Hs Hf. unfold Ielem.
+  intros [_ Hft] Hg Hf. unfold Ielem. pose proof Hg as (_ & Hv & _).
   destruct (hty_iface_nil x Hv) as [->|(dt & dv & -> & H1 & H3)]; [eexists; reflexivity|].
-  assert (Hc : ccok TIface) by (exists 1%nat; reflexivity).
-  destruct (good_iface dt dv (conj Ht (conj Hv (conj Hc (conj Hd Hs))))) as [Hg _].
-  apply Hft; [exact Hg|]. unfold msz in *. cbn [tsize vsize] in Hf. lia.
+  apply Hft; [exact (good_iface dt dv Hg)|]. unfold msz in *. cbn [tsize vsize] in Hf. lia.
 Qed.
 
 Lemma Mapval_ok f et x : P13 f -> good et x -> (2 * msz et x <= f)%nat ->
@@ -2738,8 +2848,7 @@ Proof.
   intros HP Hg Hf. unfold Mapval. destruct (is_prim et) eqn:Ep.
   - destruct Hg as (_ & Hv & _). destruct (prim_scalar_some true et x Ep Hv) as [s ->]. eexists; reflexivity.
   - destruct (gtype_eqb et TIface) eqn:Ei.
-    + apply gtype_eqb_iface in Ei. subst et. destruct Hg as (Ht & Hv & Hc & Hd & Hs).
-      apply Ielem_ok; assumption.
+    + apply gtype_eqb_iface in Ei. subst et. apply Ielem_ok; assumption.
     + destruct HP as [Hrf _]. apply Hrf; assumption.
 Qed.
 
@@ -2774,30 +2883,30 @@ Proof.
   destruct t'; try (apply Anyr_ok; assumption).
   pose proof Hg as (_ & Hv & _).
   destruct (hty_iface_nil v' Hv) as [->|(dt & dv & -> & H1 & H3)]; [eexists; reflexivity|].
-  destruct (good_iface dt dv Hg) as [Hgd _]. apply Anyr_ok; [exact HP|exact Hgd|].
+  apply Anyr_ok; [exact HP|exact (good_iface dt dv Hg)|].
   unfold msz in *. cbn [tsize vsize] in Hf. lia.
 Qed.
 
 Lemma Member_ok f name' oe ft fv g : P13 f ->
-  type_ok ft = true -> hty ft fv = true -> ccok ft -> dyn_ok fv = true ->
+  type_ok ft = true -> hty ft fv = true -> ccok ft ->
   (oe && spec_empty (S g) ft fv = false -> sp ft fv) ->
   (2 * msz ft fv <= f)%nat ->
   exists evs, Member f name' oe ft fv = (evs, None).
 Proof.
-  intros HP Ht Hv Hc Hd Hs Hf. unfold Member. destruct oe.
+  intros HP Ht Hv Hc Hs Hf. unfold Member. destruct oe.
   - pose proof (resolve_spec f ft fv Ht Hv) as HR.
     destruct (resolve f ft fv) as [[t' v']|] eqn:Er; [|eexists; reflexivity].
     destruct HR as (A & _ & _). rewrite A in Hs. specialize (Hs eq_refl).
-    destruct (resolve_good f ft fv t' v' (conj Ht (conj Hv (conj Hc (conj Hd Hs)))) Er) as [Hg' Hm].
+    destruct (resolve_good f ft fv t' v' (conj Ht (conj Hv (conj Hc Hs))) Er) as [Hg' Hm].
     destruct (Resolved_ok f t' v' HP Hg' ltac:(lia)) as [e He].
     eexists. apply fseq_intro; [reflexivity|exact He].
   - specialize (Hs eq_refl). destruct HP as [Hrf _].
-    destruct (Hrf false ft fv (conj Ht (conj Hv (conj Hc (conj Hd Hs)))) Hf) as [e He].
+    destruct (Hrf false ft fv (conj Ht (conj Hv (conj Hc Hs))) Hf) as [e He].
     eexists. apply fseq_intro; [reflexivity|exact He].
 Qed.
 
 Lemma Inl_ok f ft fv g ms : P13 f ->
-  type_ok ft = true -> hty ft fv = true -> dyn_ok fv = true ->
+  type_ok ft = true -> hty ft fv = true ->
   match under (snd (base_type ft)) with
   | TStruct _ | TMap _ | TMapK _ => ccok (snd (base_type ft))
   | _ => True
@@ -2806,11 +2915,10 @@ Lemma Inl_ok f ft fv g ms : P13 f ->
   (2 * msz ft fv <= f)%nat ->
   exists evs, Inl f ft fv = (evs, None).
 Proof.
-  intros HP Ht Hv Hd Hcc HS Hf. unfold Inl. destruct (base_type ft) as [n bt] eqn:Eb. cbn [snd] in Hcc.
+  intros HP Ht Hv Hcc HS Hf. unfold Inl. destruct (base_type ft) as [n bt] eqn:Eb. cbn [snd] in Hcc.
   unfold Inl2. destruct (deref n fv) as [bv|] eqn:Ed; [|eexists; reflexivity].
   destruct (hty_base ft n bt fv bv Ht Hv Eb Ed) as [Hbt Hbv].
   pose proof (msz_base_le ft n bt fv bv Eb Ed) as Hm.
-  pose proof (dyn_ok_deref n fv bv Hd Ed) as Hbd.
   destruct (Sim_base_inv g ft (S g) false n bt fv bv ms HS Eb Ed) as [G' HS'].
   destruct (under bt) as [ | |k| |u|u|n0 u|u|u|l|u| ] eqn:Eu;
     try (rewrite Sim_S, Eu in HS'; destruct bv; discriminate HS').
@@ -2818,30 +2926,26 @@ Proof.
     apply under_iface in Eu; [|exact Hbt]. subst bt.
     destruct (hty_iface_nil bv Hbv) as [->|(dt & dv & -> & H1 & H3)]; [eexists; reflexivity|].
     rewrite Sim_S in HS'. cbn [under] in HS'.
-    cbn [dyn_ok] in Hbd. apply andb_true_iff in Hbd. destruct Hbd as [Hbd Hd3].
-    apply andb_true_iff in Hbd. destruct Hbd as [Hd1 Hd2]. apply negb_true_iff in Hd2.
-    destruct (Sim_true_inv g G' dt dv ms H1 H3 Hd2 HS') as (m & b & bv' & Eb' & Ed' & Ho & g' & Hsp).
+    destruct (spec_supported (S g) dt) eqn:Esup; [|discriminate HS'].
+    destruct (Sim_true_sp g G' dt dv ms H1 H3 HS') as [g' Hsp].
     assert (Hgd : good dt dv).
-    { split; [exact H1|]. split; [exact H3|]. split.
-      - exists (S (tsize dt)). unfold cc_type in Hd1. destruct (cc (S (tsize dt)) dt); [discriminate Hd1|reflexivity].
-      - split; [exact Hd3|]. exists (m + g')%nat, (CObj ms). rewrite (spec_fold_ptr dt m b dv bv' g' Eb' Ed'). exact Hsp. }
+    { split; [exact H1|]. split; [exact H3|]. split; [eexists; exact (cc_of_supported _ _ Esup)|].
+      exists g', (CObj ms). exact Hsp. }
     assert (Hfd : (2 * msz dt dv <= f)%nat) by (unfold msz in *; cbn [tsize vsize] in Hm; lia).
     destruct (Anyr_ok f dt dv HP Hgd Hfd) as [e0 He0]. rewrite He0.
-    destruct Hgd as (_ & _ & _ & _ & _).
     assert (Hvs : (vsize dv <= f)%nat) by (unfold msz in Hfd; lia).
     destruct (Anyr_okc f dt dv e0 (P12_all f) H1 H3 Hvs He0) as (tr & -> & Hsf).
-    (* the folded value is an object *)
-    pose proof (Hsf (m + S (msz dt dv))%nat ltac:(lia)) as Hbig.
-    rewrite (spec_fold_ptr dt m b dv bv' _ Eb' Ed') in Hbig.
-    destruct (spec_obj_shape _ b bv' _ Ho Hbig) as [cms Hc].
-    apply (embed_succeeds tr cms Hc).
+    (* the folded value is the object the specification inlines *)
+    pose proof (Hsf (S (Nat.max g' (msz dt dv))) ltac:(lia)) as Hbig.
+    rewrite (spec_fold_mono g' (S (Nat.max g' (msz dt dv))) dt dv _ Hsp ltac:(lia)) in Hbig.
+    apply (embed_succeeds tr ms). inversion Hbig. reflexivity.
   - (* pointer: not a base type *)
     exfalso. apply under_not_ptr in Eu; [|exact Hbt]. exact (base_type_not_ptr ft n bt Eb u Eu).
   - (* map *)
     assert (Hgb : good bt bv).
     { destruct (Sim_at_base g G' false bt bv ms Hbt Hbv (base_type_not_ptr ft n bt Eb)) as [_ Hsp];
         [destruct bt; try reflexivity; discriminate Eu|exact HS'|].
-      split; [exact Hbt|]. split; [exact Hbv|]. split; [exact Hcc|]. split; [exact Hbd|].
+      split; [exact Hbt|]. split; [exact Hbv|]. split; [exact Hcc|].
       destruct Hsp as [g' Hsp]. exists g', (CObj ms). exact Hsp. }
     destruct (good_under_map bt u bv Hgb Eu) as [Hgm Hts].
     destruct bv; try (eexists; reflexivity).
@@ -2853,7 +2957,7 @@ Proof.
     assert (Hgb : good bt bv).
     { destruct (Sim_at_base g G' false bt bv ms Hbt Hbv (base_type_not_ptr ft n bt Eb)) as [_ Hsp];
         [destruct bt; try reflexivity; discriminate Eu|exact HS'|].
-      split; [exact Hbt|]. split; [exact Hbv|]. split; [exact Hcc|]. split; [exact Hbd|].
+      split; [exact Hbt|]. split; [exact Hbv|]. split; [exact Hcc|].
       destruct Hsp as [g' Hsp]. exists g', (CObj ms). exact Hsp. }
     destruct bv; cbn [hty] in Hbv; rewrite Eu in Hbv; try discriminate Hbv.
     destruct HP as [Hrf _]. apply Hrf; [exact Hgb|lia].
@@ -2871,12 +2975,11 @@ Lemma Field1_ok f name tag ft fv fs vs g acc c : P13 f ->
       | _ => True
       end
     else ccok ft)) ->
-  dyn_ok fv = true ->
   Sfields g ((name, tag, ft) :: fs) (fv :: vs) acc = Some c ->
   (2 * msz ft fv <= f)%nat ->
   (exists e, Field1 f name tag ft fv = (e, None)) /\ exists acc', Sfields g fs vs acc' = Some c.
 Proof.
-  intros HP Ht Hv Hcc Hd H Hf. rewrite Sfields_cons in H. unfold Field1.
+  intros HP Ht Hv Hcc H Hf. rewrite Sfields_cons in H. unfold Field1.
   destruct (exported name) eqn:Ex; cbn [negb] in *; [|split; [eexists; reflexivity|eauto]].
   specialize (Hcc eq_refl). cbv zeta in Hcc. destruct Hcc as [_ Hcc].
   destruct (parse_tags tag) as [tn o] eqn:Etag. cbn [snd] in *.
@@ -2887,26 +2990,25 @@ Proof.
   - destruct (Sim g (S g) false ft fv) as [ms|] eqn:ES; [|discriminate H].
     split; [eapply Inl_ok; eauto|eauto].
   - destruct (t_omitempty o && spec_empty (S g) ft fv) eqn:E.
-    + split; [|eauto]. apply (Member_ok f _ _ ft fv g HP Ht Hv Hcc Hd); [|exact Hf]. congruence.
+    + split; [|eauto]. apply (Member_ok f _ _ ft fv g HP Ht Hv Hcc); [|exact Hf]. congruence.
     + destruct (spec_fold g ft fv) as [x|] eqn:Es; [|discriminate H].
-      split; [|eauto]. apply (Member_ok f _ _ ft fv g HP Ht Hv Hcc Hd); [|exact Hf].
+      split; [|eauto]. apply (Member_ok f _ _ ft fv g HP Ht Hv Hcc); [|exact Hf].
       intros _. exists g, x. exact Es.
 Qed.
 
 Lemma Fields_ok f : P13 f -> forall fs vs gc g acc c,
   type_ok_fields fs = true -> hty_fields fs vs = true -> cc_fields gc fs = None ->
-  forallb dyn_ok vs = true -> Sfields g fs vs acc = Some c ->
+  Sfields g fs vs acc = Some c ->
   (2 * (tsum fs + vsum vs) <= f)%nat ->
   exists e, Fields f fs vs = (e, None).
 Proof.
-  intros HP. induction fs as [|[[name tag] ft] fs IH]; intros vs gc g acc c Ht Hv Hc Hd HS Hf.
+  intros HP. induction fs as [|[[name tag] ft] fs IH]; intros vs gc g acc c Ht Hv Hc HS Hf.
   - rewrite Fields_nil_l. eexists; reflexivity.
   - destruct vs as [|fv vs]; [discriminate Hv|]. rewrite Fields_cons.
     cbn [type_ok_fields] in Ht. fold type_ok_fields in Ht.
     apply andb_true_iff in Ht. destruct Ht as [Ht Ht4]. apply andb_true_iff in Ht. destruct Ht as [Ht Ht3].
     cbn [hty_fields] in Hv. fold hty_fields in Hv. apply andb_true_iff in Hv. destruct Hv as [Hv1 Hv2].
     apply cc_fields_cons in Hc. destruct Hc as [Hc1 Hc2].
-    cbn [forallb] in Hd. apply andb_true_iff in Hd. destruct Hd as [Hd1 Hd2].
     cbn [tsum vsum fold_right] in Hf. fold tsum in Hf. fold (vsum vs) in Hf.
     assert (Hcc : exported name = true ->
        let o := snd (parse_tags tag) in
@@ -2922,37 +3024,35 @@ Proof.
       intro Eo. specialize (B Eo). destruct (t_squash (snd (parse_tags tag))).
       - destruct (under (snd (base_type ft))); try exact I; exists gc; exact B.
       - exists gc; exact B. }
-    destruct (Field1_ok f name tag ft fv fs vs g acc c HP Ht3 Hv1 Hcc Hd1 HS ltac:(unfold msz; lia))
+    destruct (Field1_ok f name tag ft fv fs vs g acc c HP Ht3 Hv1 Hcc HS ltac:(unfold msz; lia))
       as [[e1 H1] [acc' HS']].
-    destruct (IH vs gc g acc' c Ht4 Hv2 Hc1 Hd2 HS' ltac:(lia)) as [e2 H2].
+    destruct (IH vs gc g acc' c Ht4 Hv2 Hc1 HS' ltac:(lia)) as [e2 H2].
     exists (e1 ++ e2). apply fseq_intro; assumption.
 Qed.
 
 Lemma Fast_ok f u v r : P13 f -> good u v -> (2 * msz u v <= f)%nat ->
   Fast f v u = Some r -> exists evs, r = (evs, None).
 Proof.
-  intros HP Hg Hf HF. unfold Fast in HF. pose proof Hg as (Ht & Hv & Hc & Hd & Hs).
+  intros HP Hg Hf HF. unfold Fast in HF. pose proof Hg as (Ht & Hv & Hc & Hs).
   destruct (prim_fold true u v) as [pe|]; [inversion HF; eexists; reflexivity|].
   destruct u as [ | |k| |u|u|n0 u|u|u|l|u| ]; try discriminate HF.
   - destruct u; try discriminate HF. apply Some_inj in HF. subst r.
     apply wrap_ok. apply seq_ok. intros x Hx.
-    destruct (good_slice_elem TIface v x Hg Hx) as (H1 & H2 & H3 & H4 & H5).
-    apply Ielem_ok; try assumption.
+    apply Ielem_ok; [exact HP|exact (good_slice_elem TIface v x Hg Hx)|].
     pose proof (vsize_glist_in v x Hx). unfold msz in *. cbn [tsize] in *. lia.
   - destruct u; try discriminate HF. apply Some_inj in HF. subst r.
     apply wrap_ok. apply seq_members_ok. intros kv Hkv.
-    destruct (good_map_elem TIface v kv Hg Hkv) as (H1 & H2 & H3 & H4 & H5).
-    apply Ielem_ok; try assumption.
+    apply Ielem_ok; [exact HP|exact (good_map_elem TIface v kv Hg Hkv)|].
     pose proof (vsize_gmap_in v kv Hkv). unfold msz in *. cbn [tsize] in *. lia.
 Qed.
 
 Lemma good_struct fs vs : good (TStruct fs) (GStruct vs) ->
   type_ok_fields fs = true /\ hty_fields fs vs = true /\ (exists gc, cc_fields gc fs = None) /\
-  forallb dyn_ok vs = true /\ exists g c, Sfields g fs vs [] = Some c.
+  exists g c, Sfields g fs vs [] = Some c.
 Proof.
-  intros (Ht & Hv & Hc & Hd & (g & c & Hs)). split; [exact Ht|]. split; [exact Hv|]. split.
+  intros (Ht & Hv & Hc & (g & c & Hs)). split; [exact Ht|]. split; [exact Hv|]. split.
   - apply ccok_inv in Hc. destruct Hc as [gc Hc]. rewrite cc_S in Hc. eauto.
-  - split; [exact Hd|]. destruct g as [|g]; [rewrite spec_fold_O in Hs; discriminate Hs|].
+  - destruct g as [|g]; [rewrite spec_fold_O in Hs; discriminate Hs|].
     rewrite spec_fold_S in Hs. cbn [under] in Hs. exists g, c. exact Hs.
 Qed.
 
@@ -2969,7 +3069,7 @@ Proof.
     + intros inl t v _ Hf. unfold msz in Hf. pose proof (vsize_pos v). lia.
     + intros t v _ Hf. lia.
   - split.
-    + intros inl t v Hg Hf. rewrite rf_S. pose proof Hg as (Ht & Hv & Hc & Hd & Hs).
+    + intros inl t v Hg Hf. rewrite rf_S. pose proof Hg as (Ht & Hv & Hc & Hs).
       destruct (prim_fold false t v) as [pe|] eqn:Ep; [eexists; reflexivity|].
       destruct t as [ | |k| |u|u|n0 u|u|u|fs|u| ].
       * exfalso. unfold prim_fold in Ep. destruct (prim_scalar_some false TBool v eq_refl Hv) as [s Es].
@@ -2980,7 +3080,7 @@ Proof.
         rewrite Es in Ep. discriminate Ep.
       * (* interface *)
         destruct (hty_iface_nil v Hv) as [->|(dt & dv & -> & H1 & H3)]; [eexists; reflexivity|].
-        destruct (good_iface dt dv Hg) as [Hgd _]. apply Anyr_ok; [exact IH|exact Hgd|].
+        apply Anyr_ok; [exact IH|exact (good_iface dt dv Hg)|].
         unfold msz in *. cbn [tsize vsize] in Hf. lia.
       * (* pointer *)
         destruct (base_type (TPtr u)) as [n bt] eqn:Eb.
@@ -2995,9 +3095,9 @@ Proof.
       * exfalso. exact (ccok_not_mapk (TMapK u) u Hc eq_refl).
       * (* struct *)
         destruct v; try discriminate Hv.
-        destruct (good_struct fs vs Hg) as (H1 & H2 & (gc & H3) & H4 & (g & c & H5)).
+        destruct (good_struct fs vs Hg) as (H1 & H2 & (gc & H3) & (g & c & H5)).
         unfold msz in Hf. rewrite tsize_struct, vsize_struct in Hf.
-        destruct (Fields_ok f IH fs vs gc g [] c H1 H2 H3 H4 H5 ltac:(lia)) as [e He].
+        destruct (Fields_ok f IH fs vs gc g [] c H1 H2 H3 H5 ltac:(lia)) as [e He].
         destruct inl; [eauto|]. apply wrap_ok. eauto.
       * (* named *)
         assert (Hn : named_ok u = true) by (cbn [type_ok] in Ht; apply andb_true_iff in Ht; apply Ht).
@@ -3025,29 +3125,51 @@ Proof.
         exact (Fast_ok f _ v r IH Hgu ltac:(lia) EF2).
 Qed.
 
-(* C12, converse, with the two guards the counterexamples call for: what the documented
-   mapping accepts, Fold accepts *)
-Theorem C12_fold_accepts_guarded : forall t v F c,
-  has_type t v = true -> cc_type t = None -> dyn_ok v = true ->
+(* C12, converse: what the documented mapping accepts, Fold accepts.  The only premise
+   besides well-typedness is that the static type compiles (= is a supported type); what
+   interfaces hold is judged by the specification itself. *)
+Theorem C12_fold_accepts_cc : forall t v F c,
+  has_type t v = true -> cc_type t = None ->
   spec_fold F t v = Some c -> snd (fold_value t v) = None.
 Proof.
-  intros t v F c Hh Hc Hd Hs. unfold has_type in Hh. apply andb_true_iff in Hh. destruct Hh as [Ht Hv].
+  intros t v F c Hh Hc Hs. unfold has_type in Hh. apply andb_true_iff in Hh. destruct Hh as [Ht Hv].
   assert (Hg : good t v).
-  { split; [exact Ht|]. split; [exact Hv|]. split; [eexists; exact Hc|]. split; [exact Hd|].
-    exists F, c. exact Hs. }
+  { split; [exact Ht|]. split; [exact Hv|]. split; [eexists; exact Hc|]. exists F, c. exact Hs. }
   destruct (P13_all (4 * (tsize t + vsize v) + 8)) as [_ Hft].
   destruct (Hft t v Hg ltac:(unfold msz; lia)) as [evs He].
   unfold fold_value. destruct v; try (rewrite He; reflexivity).
   destruct t; try (rewrite He; reflexivity). reflexivity.
 Qed.
-Print Assumptions C12_fold_accepts_guarded.
+Print Assumptions C12_fold_accepts_cc.
 
-(* in the form asked for: a supported static type *)
-Corollary C12_fold_accepts : forall t v F c,
-  has_type t v = true -> spec_supported (S (tsize t)) t = true -> dyn_ok v = true ->
+(* in the form of Properties/C12.v: the weakest form of "the static type is supported" *)
+Theorem C12_fold_accepts : forall t v F c,
+  has_type t v = true -> spec_supported (S (tsize t)) t = true ->
   spec_fold F t v = Some c -> snd (fold_value t v) = None.
 Proof.
-  intros t v F c Hh Hsup. apply C12_fold_accepts_guarded; [exact Hh|].
+  intros t v F c Hh Hsup. apply C12_fold_accepts_cc; [exact Hh|].
   apply supported_compiles. exact Hsup.
 Qed.
 Print Assumptions C12_fold_accepts.
+
+(* ... or judged with the fuel the specification is run with *)
+Corollary C12_fold_accepts_same_fuel : forall t v F c,
+  has_type t v = true -> spec_supported F t = true ->
+  spec_fold F t v = Some c -> snd (fold_value t v) = None.
+Proof.
+  intros t v F c Hh Hsup. apply C12_fold_accepts_cc; [exact Hh|].
+  eapply cc_of_supported. exact Hsup.
+Qed.
+Print Assumptions C12_fold_accepts_same_fuel.
+
+(* the premise on the static type cannot be dropped: at top level the specification does
+   not judge the static type (an empty omitempty field is skipped without looking at it) *)
+Definition acc_static_t := TStruct [(s_A, tg [s_omitempty], TPtr TUnsup)].
+Definition acc_static_v := GStruct [GNil].
+Example C12_fold_accepts_needs_supported :
+  has_type acc_static_t acc_static_v = true /\
+  spec_supported 100 acc_static_t = false /\
+  spec_fold 100 acc_static_t acc_static_v = Some (CObj []) /\
+  fold_value acc_static_t acc_static_v = ([], Some feUnsupported).
+Proof. vm_compute. repeat split. Qed.
+Print Assumptions C12_fold_accepts_needs_supported.
